@@ -1449,3 +1449,51 @@ def rule_md5_file_loop(prog, rep, rid='H8'):
     rep.oblige(rid, ok, {'seek_to_offset': ok})
     if not ok:
         rep.violation(rid, f, f.line, 'seek', 'the file is never positioned at the requested offset')
+
+
+def rule_chunk_pointer_advances(prog, rep, rid='H10'):
+    """A loop that feeds a message to the digest in chunks must feed a different part each time: the pointer passed to the
+    update routine inside a loop depends on something the loop changes (base + offset, a walking pointer), or it is a local
+    buffer that the loop refills (handed to a reader as a writable argument).  `update(ctx, data, chunk)` with a loop-invariant
+    `data` digests the first chunk over and over."""
+    from .looprules import _natural_body, _reads, _writes
+    rep.rule(rid, 'inside a loop, the data pointer handed to the digest update depends on the loop\'s progress (or is a buffer refilled in the '
+                  'loop)')
+    unit = 'src/utilities/qhash.c'
+    prog.unit(unit)
+    for f in sorted(prog.funcs_in(unit), key=lambda x: x.line or 0):
+        if f.body is None:
+            continue
+        cfg = f.cfg
+        for (head, stmt) in cfg.loops:
+            if head.id not in cfg.reachable:
+                continue
+            body = _natural_body(cfg, head, stmt)
+            written = set()
+            refilled = set()
+            for i in body:
+                m = cfg.nodes[i]
+                nm, _mem, _imp = _writes(prog, m)
+                written |= nm
+                if isinstance(m.ast, dict) and m.kind != 'macro':
+                    for y in walk(m.ast):
+                        if y.get('kind') == 'CallExpr' and prog.callee_name(y) in ('read', 'fread', 'pread', 'recv', 'memcpy', 'fgets'):
+                            for a in children(y)[1:]:
+                                sa = strip(a)
+                                if sa.get('kind') == 'DeclRefExpr':
+                                    refilled.add(canon(sa))
+            for i in body:
+                m = cfg.nodes[i]
+                if not isinstance(m.ast, dict) or m.kind == 'macro':
+                    continue
+                for y in walk(m.ast):
+                    if y.get('kind') == 'CallExpr' and prog.callee_name(y) == 'MD5Update' and len(children(y)) >= 4:
+                        ptr = children(y)[2]
+                        rep.instance(rid)
+                        names = _reads(ptr)[0]
+                        ok = bool(names & written) or bool(names & refilled)
+                        rep.oblige(rid, ok, {'function': f.name, 'call': canon(y)[:60]})
+                        if not ok:
+                            rep.violation(rid, f, y.get('_line'), 'same-chunk',
+                                          '%s: the loop at line %s hands %s to the digest in every iteration although nothing in the loop changes '
+                                          'it: the same bytes are digested again and again, the rest of the message never' % (f.name, head.line, canon(ptr)[:40]))
